@@ -95,7 +95,7 @@ def run(ctx):
         rem = [m for m in prims.mutations(v) if prims.self_field(m.path) == 'operations' and m.method == 'remove']
         ok = len(ac) == 1
         if ok:
-            isn = prims.edge_nodes_matching(v, [r'^Option::is_none\(HashMap::remove\(self\.operations, id\)\)$'])
+            isn = prims.edge_nodes_matching(v, [r'^HashMap::remove\(self\.operations, id\) is None$'])
             ok, _ = must_pass(v, rem[0].bb, [ac[0].bb] + isn)
         ctx.ob(ok, '%s applies the slow-start decrement for every removed operation' % short(v.path), 'ss|decrement|' + short(v.path), loc=v.loc())
     aa = ctx.fn('ProtocolState::apply_ackable_completion')
